@@ -348,6 +348,34 @@ def r3_syspath_pairing(ctx):
     if cnt:
         (_, lo, hi, _, whi) = next(iter(cnt.values()))
         rep.ob('C12.R3b', ctx.loc(fexit, fexit.node), 'exactly one removal', hi <= 1, 'between %d and %d removals on a path' % (lo, hi), anchor=PPC + '.__exit__')
+    # (d) removal is by position: the entry at the remembered index once it is verified to be ours, or the position found by
+    # sys.path.index(dpath) during recovery.  remove(value) on the verified branch deletes the FIRST equal entry, i.e. possibly one that
+    # was on sys.path before the context was entered (same members afterwards, different order).
+    domx = ctx.dom(g, g.entry)
+    rdx = ctx.rd(fexit)
+    recvx = fexit.node.args.args[0].arg
+    for n in pops:
+        if n.dup:
+            continue
+        facts = graph.guard_facts(domx, n)
+        recovering = any(isinstance(fa.expr, ast.Name) and fa.expr.id == 'need_recover' and fa.polarity is True for fa in facts)
+        for c in node_calls(n):
+            if not (isinstance(c.func, ast.Attribute) and c.func.attr in ('pop', 'remove') and _is_sys_attr(c.func.value, ('path',))):
+                continue
+            if c.func.attr == 'remove':
+                rep.ob('C12.R3d', ctx.loc(fexit, c), ctx.src(c), recovering,
+                       'removal by value only during recovery (the entry is known not to be at its index)' if recovering else
+                       'the entry is removed by value although its position is known: remove() deletes the first equal element, so a directory that was already on sys.path before '
+                       'the context loses its original position while the inserted copy stays (sys.path is not what it was)', anchor=PPC + '.__exit__')
+            else:
+                a = c.args[0] if c.args else None
+                by_index = a is not None and ((isinstance(a, ast.Attribute) and a.attr == 'index' and is_name(a.value, recvx)) or
+                                              (isinstance(a, ast.Name) and all(isinstance(d.value, ast.Call) and isinstance(d.value.func, ast.Attribute) and d.value.func.attr == 'index' and
+                                                                               _is_sys_attr(d.value.func.value, ('path',)) for d in rdx.at(n, a.id)) and bool(rdx.at(n, a.id))))
+                rep.ob('C12.R3d', ctx.loc(fexit, c), ctx.src(c), by_index,
+                       'removes the entry at the remembered / recovered position' if by_index else
+                       ('pop() without an index removes the LAST element, not the inserted one' if a is None else 'the removed position is neither the remembered index nor one found by sys.path.index(dpath)'),
+                       anchor=PPC + '.__exit__')
     # explicit raises: RuntimeError inside a handler for ValueError of list.index
     for n in g.nodes:
         if n.kind == 'stmt' and isinstance(n.ast, ast.Raise) and n.ast.exc is not None and not n.dup:
@@ -517,6 +545,7 @@ UI = 'xdoctest/utils/util_import.py'
 RN = 'xdoctest/runner.py'
 CO = 'xdoctest/core.py'
 VARIANTS = [
+    fire('removal-by-value-on-verified-branch', 'C12.R3d', ('xdoctest/utils/util_import.py', "        else:\n            sys.path.pop(self.index)\n", "        else:\n            sys.path.remove(self.dpath)\n")),
     fire('bounds-test-off-by-one', 'C12.R3c', ('xdoctest/utils/util_import.py', "        if len(sys.path) <= self.index:  # nocover\n", "        if len(sys.path) < self.index:  # nocover\n")),
     fire('stdout-store-in-runner', 'C12.R1', (RN, "    n_total = len(enabled_examples)\n", "    n_total = len(enabled_examples)\n    sys.stdout = sys.__stdout__\n")),
     fire('syspath-insert-in-core', 'C12.R1', (CO, "        pkgpath = _rectify_to_modpath(pkg_identifier)\n", "        pkgpath = _rectify_to_modpath(pkg_identifier)\n        sys.path.insert(0, pkgpath)\n")),
